@@ -17,6 +17,9 @@ helper is replaced by the helper's body:
     through them; local declarations get fresh identities;
   * a helper all of whose calls were replaced is removed from the model.
 
+Switch statements without fall-through and with a side-effect-free controlling expression are lowered to
+if / else-if chains first, so that engines need one conditional construct only.
+
 The transformation is purely syntactic and semantics-preserving for the C fragment it accepts; everything else is
 left untouched.  It runs on every model load (it is part of "obtaining the resolved program").
 """
@@ -262,6 +265,9 @@ def normalize(model):
     """Inline unknown static helpers in place.  Returns a list of notes (what was inlined / left)."""
     known = known_tokens()
     notes = []
+    nsw = lower_switches(model)
+    if nsw:
+        notes.append("%d switch statement(s) lowered to if / else-if chains" % nsw)
     cands = {}
     for key, f in model.funcs.items():
         if not f.static or f.in_header or f.name in known:
@@ -315,6 +321,7 @@ def normalize(model):
                         work.append(ck)
     # inline bottom-up: repeat until no candidate call remains or no progress
     leftover = set()
+    touched = set()
     for _round in range(12):
         progress = False
         for f in list(model.funcs.values()):
@@ -327,6 +334,7 @@ def normalize(model):
                     continue            # inline into g first
                 if _inline_site(f, call, g):
                     progress = True
+                    touched.add(f.key)
                 else:
                     leftover.add(ck)
         if not progress:
@@ -339,6 +347,15 @@ def normalize(model):
             notes.append("helper %s inlined into its callers" % g.name)
         else:
             notes.append("helper %s kept (a call site could not be replaced)" % g.name)
+    for k in touched:
+        f = model.funcs.get(k)
+        if f is None:
+            continue
+        eliminate_out_pointers(f)
+        for _ in range(4):
+            if not thread_flags(f):
+                break
+        propagate_copies(f)
     model._callgraph = None
     return notes
 
@@ -422,3 +439,374 @@ def _inline_site(f, call, g):
         return False
     comp["inner"][idx:idx + 1] = stmts + [host]
     return True
+
+
+# ---------------------------------------------------------------------------------------------------------------
+def _pure_expr(n):
+    """no calls, assignments or increments inside"""
+    for x in walk(n):
+        if x["kind"] in ("CallExpr", "CompoundAssignOperator"):
+            return False
+        if x["kind"] == "BinaryOperator" and x.get("opcode") in ("=", ","):
+            return False
+        if x["kind"] == "UnaryOperator" and x.get("opcode") in ("++", "--"):
+            return False
+    return True
+
+
+def _lower_switch(sw):
+    """switch (e) { case A: S; break; case B: case C: T; break; default: U; }  ->  if (e == A) {S} else if (e == B || e == C)
+    {T} else {U}; None if there is fall-through with statements, a break nested in an inner construct that is not a loop,
+    or an impure controlling expression."""
+    ch = kids(sw)
+    ch = [c for c in ch if c["kind"] != "Null"]
+    if len(ch) != 2 or ch[1]["kind"] != "CompoundStmt":
+        return None
+    cond, body = ch
+    if not _pure_expr(cond):
+        return None
+    groups = []          # (labels or None for default, [stmts], terminated)
+    cur = None
+    for st in kids(body):
+        labels_here = []
+        inner = st
+        is_default = False
+        while inner["kind"] in ("CaseStmt", "DefaultStmt"):
+            if inner["kind"] == "CaseStmt":
+                labels_here.append(kids(inner)[0])
+                inner = kids(inner)[-1]
+            else:
+                is_default = True
+                inner = kids(inner)[-1]
+        if labels_here or is_default:
+            if cur is not None and not cur[2]:
+                if cur[1]:
+                    return None          # fall-through out of a non-empty group
+                # empty group: its labels join the next one
+                labels_here = (cur[0] or []) + labels_here
+                is_default = is_default or cur[3]
+                groups.pop()
+            cur = [labels_here, [], False, is_default]
+            groups.append(cur)
+            st = inner
+        if cur is None:
+            return None
+        if st["kind"] == "BreakStmt":
+            cur[2] = True
+            continue
+        if cur[2]:
+            return None                  # statements after break without a label
+        if st["kind"] == "CompoundStmt" and kids(st) and kids(st)[-1]["kind"] in ("BreakStmt", "ReturnStmt"):
+            # case X: { ...; break; }
+            if kids(st)[-1]["kind"] == "BreakStmt":
+                st = dict(st)
+                st["inner"] = list(kids(st)[:-1])
+            cur[1].append(st)
+            cur[2] = True
+            continue
+        cur[1].append(st)
+        if st["kind"] == "ReturnStmt":
+            cur[2] = True
+    # a break belonging to the switch nested inside an if: not handled
+    def has_switch_break(n, inloop=False):
+        if n["kind"] == "BreakStmt":
+            return not inloop
+        if n["kind"] in ("ForStmt", "WhileStmt", "DoStmt", "SwitchStmt"):
+            return False
+        return any(has_switch_break(c, inloop) for c in kids(n))
+    for g in groups:
+        if any(has_switch_break(s_) for s_ in g[1]):
+            return None
+    def eq(label):
+        return _mk("BinaryOperator", [copy.deepcopy(cond), label], opcode="==", type="int", file=sw.get("file"), line=sw.get("line"))
+    node = None
+    default = None
+    chain = []
+    for labels, stmts, term, is_def in groups:
+        blk = _mk("CompoundStmt", stmts, file=sw.get("file"), line=sw.get("line"))
+        if is_def:
+            default = blk
+            if labels:
+                pass                     # labels that share the default branch need no test
+            continue
+        c = eq(labels[0])
+        for lb in labels[1:]:
+            c = _mk("BinaryOperator", [c, eq(lb)], opcode="||", type="int", file=sw.get("file"), line=sw.get("line"))
+        chain.append((c, blk))
+    if not chain:
+        return default
+    tail = default
+    for c, blk in reversed(chain):
+        inner = [c, blk] + ([tail] if tail is not None else [])
+        tail = _mk("IfStmt", inner, file=sw.get("file"), line=sw.get("line"), col=sw.get("col"))
+    return tail
+
+
+def lower_switches(model):
+    n = 0
+    for f in model.funcs.values():
+        rel = model.rel(f.file) or ""
+        if not rel.startswith(("src/", "include/")):
+            continue
+        changed = True
+        while changed:
+            changed = False
+            for x in walk(f.body):
+                ch = x.get("inner") or []
+                for i, c in enumerate(ch):
+                    if c["kind"] == "SwitchStmt":
+                        low = _lower_switch(c)
+                        if low is not None:
+                            ch[i] = low
+                            n += 1
+                            changed = True
+                            break
+                if changed:
+                    break
+    return n
+
+
+# ---------------------------------------------------------------------------------------------------------------
+# clean-up passes on functions that received inlined code
+
+def _const_value(n):
+    n0 = strip(n, casts=True)
+    if n0["kind"] == "IntegerLiteral":
+        return int(n0["value"])
+    if n0["kind"] == "CXXBoolLiteralExpr":
+        return 1 if n0.get("value") else 0
+    return None
+
+
+def _tails(stmt):
+    """statements in tail position of stmt (last executed on each path), or None if a path has none / loops interfere"""
+    k = stmt["kind"]
+    if k == "CompoundStmt":
+        if not kids(stmt):
+            return None
+        return _tails(kids(stmt)[-1])
+    if k == "IfStmt":
+        ch = kids(stmt)
+        if len(ch) < 3:
+            return None
+        a, b = _tails(ch[1]), _tails(ch[2])
+        if a is None or b is None:
+            return None
+        return a + b
+    if k in ("ForStmt", "WhileStmt", "DoStmt", "SwitchStmt", "ReturnStmt", "BreakStmt", "ContinueStmt", "GotoStmt"):
+        return None
+    return [stmt]
+
+
+def _assign_const_to(stmt, vid):
+    if stmt["kind"] == "BinaryOperator" and stmt.get("opcode") == "=":
+        l = strip(kids(stmt)[0], casts=True)
+        if l["kind"] == "DeclRefExpr" and l["ref"]["id"] == vid:
+            return _const_value(kids(stmt)[1])
+    return None
+
+
+def _flag_test(cond, vids):
+    """(var id, function const -> bool) for conditions R, !R, R == c, R != c over a flag variable"""
+    c = strip(cond, casts=True)
+    neg = False
+    while c["kind"] == "UnaryOperator" and c.get("opcode") == "!":
+        neg = not neg
+        c = strip(kids(c)[0], casts=True)
+    if c["kind"] == "DeclRefExpr" and c["ref"]["id"] in vids:
+        return c["ref"]["id"], (lambda v, neg=neg: (v != 0) != neg)
+    if c["kind"] == "BinaryOperator" and c.get("opcode") in ("==", "!="):
+        a, b = strip(kids(c)[0], casts=True), strip(kids(c)[1], casts=True)
+        for x, y in ((a, b), (b, a)):
+            cv = _const_value(y)
+            if x["kind"] == "DeclRefExpr" and x["ref"]["id"] in vids and cv is not None:
+                eq = c["opcode"] == "=="
+                return x["ref"]["id"], (lambda v, cv=cv, eq=eq, neg=neg: ((v == cv) == eq) != neg)
+    return None
+
+
+def _insert_after(root, target, new_stmts):
+    for x in walk(root):
+        ch = x.get("inner")
+        if ch and x["kind"] == "CompoundStmt":
+            for i, c in enumerate(ch):
+                if c is target:
+                    ch[i + 1:i + 1] = new_stmts
+                    return True
+    # target is a single-statement branch: wrap
+    for x in walk(root):
+        ch = x.get("inner")
+        if ch:
+            for i, c in enumerate(ch):
+                if c is target:
+                    ch[i] = _mk("CompoundStmt", [target] + new_stmts, file=target.get("file"), line=target.get("line"))
+                    return True
+    return False
+
+
+def thread_flags(f):
+    """A statement all of whose paths end in `R = constant`, followed (possibly after `T v = R;`) by `if (test of R or v)`:
+    the if is moved into every tail, specialised for that constant."""
+    changed = False
+    for blk in list(walk(f.body)):
+        if blk["kind"] != "CompoundStmt":
+            continue
+        st = blk["inner"]
+        i = 0
+        while i < len(st) - 1:
+            a = st[i]
+            tails = _tails(a) if a["kind"] in ("IfStmt", "CompoundStmt") else None
+            if not tails:
+                i += 1
+                continue
+            # the flag variable: assigned a constant in every tail
+            vids = None
+            for t in tails:
+                if t["kind"] == "BinaryOperator" and t.get("opcode") == "=":
+                    l = strip(kids(t)[0], casts=True)
+                    if l["kind"] == "DeclRefExpr" and _const_value(kids(t)[1]) is not None:
+                        vids = {l["ref"]["id"]} if vids is None else (vids & {l["ref"]["id"]})
+                        continue
+                vids = set()
+                break
+            if not vids:
+                i += 1
+                continue
+            rid = next(iter(vids))
+            j = i + 1
+            alias = set()
+            if st[j]["kind"] == "DeclStmt" and len(kids(st[j])) == 1 and kids(kids(st[j])[0]):
+                ini = strip(kids(kids(st[j])[0])[0], casts=True)
+                if ini["kind"] == "DeclRefExpr" and ini["ref"]["id"] == rid:
+                    alias.add(kids(st[j])[0]["id"])
+                    j += 1
+            if j >= len(st) or st[j]["kind"] != "IfStmt":
+                i += 1
+                continue
+            ft = _flag_test(kids(st[j])[0], {rid} | alias)
+            if ft is None:
+                i += 1
+                continue
+            the_if = st[j]
+            ok = True
+            for t in tails:
+                cv = _assign_const_to(t, rid)
+                branch = kids(the_if)[1] if ft[1](cv) else (kids(the_if)[2] if len(kids(the_if)) > 2 else None)
+                if branch is None:
+                    continue
+                cp = _rename(branch, {})
+                body = kids(cp) if cp["kind"] == "CompoundStmt" else [cp]
+                # the alias declaration must be visible in the moved code: re-declare it in the tail
+                pre = []
+                if j == i + 2:
+                    pre = [_rename(st[i + 1], {})] if False else []
+                if not _insert_after(a, t, pre + body):
+                    ok = False
+            if ok:
+                del st[j]
+                changed = True
+            i += 1
+    return changed
+
+
+def eliminate_out_pointers(f):
+    """`T *p = &x;` where p is only ever used as `*p` : replace `*p` by x and drop p."""
+    changed = False
+    decls = {}
+    for x in walk(f.body):
+        if x["kind"] == "VarDecl" and kids(x) and str(x.get("id", "")).startswith("inl"):
+            ini = strip(kids(x)[0], casts=True)
+            if ini["kind"] == "UnaryOperator" and ini.get("opcode") == "&":
+                tgt = strip(kids(ini)[0], casts=True)
+                if tgt["kind"] == "DeclRefExpr":
+                    decls[x["id"]] = tgt
+    for pid, tgt in decls.items():
+        derefs, others = [], 0
+        for x in walk(f.body):
+            if x["kind"] == "UnaryOperator" and x.get("opcode") == "*":
+                c = strip(kids(x)[0], casts=True)
+                if c["kind"] == "DeclRefExpr" and c["ref"]["id"] == pid:
+                    derefs.append(x)
+        # references inside unevaluated operands (sizeof) and in comparisons with NULL do not count: &x is never NULL
+        ignore = set()
+        for x in walk(f.body):
+            if x["kind"] == "UnaryExprOrTypeTraitExpr":
+                ignore |= {id(y) for y in walk(x)}
+            if x["kind"] == "BinaryOperator" and x.get("opcode") in ("!=", "=="):
+                a_, b_ = strip(kids(x)[0], casts=True), strip(kids(x)[1], casts=True)
+                for u, v in ((a_, b_), (b_, a_)):
+                    if u["kind"] == "DeclRefExpr" and u["ref"].get("id") == pid and v["kind"] == "IntegerLiteral":
+                        ignore.add(id(u))
+        nrefs = sum(1 for x in walk(f.body) if x["kind"] == "DeclRefExpr" and x["ref"].get("id") == pid and id(x) not in ignore)
+        if nrefs != len(derefs) or not derefs:
+            continue
+        for d in derefs:
+            for k_ in list(d.keys()):
+                del d[k_]
+            d.update(copy.deepcopy(tgt))
+        # the pointer itself is dead now: drop its declaration (and the assertions about it)
+        for x in walk(f.body):
+            ch = x.get("inner")
+            if not ch or x["kind"] != "CompoundStmt":
+                continue
+            keep = []
+            for c in ch:
+                if c["kind"] == "DeclStmt" and any(v.get("id") == pid for v in kids(c)):
+                    continue
+                if any(y["kind"] == "DeclRefExpr" and y["ref"].get("id") == pid for y in walk(c)) and \
+                        c["kind"] in ("DoStmt", "ParenExpr", "ConditionalOperator", "CStyleCastExpr"):
+                    continue
+                keep.append(c)
+            x["inner"] = keep
+        changed = True
+    return changed
+
+
+def propagate_copies(f):
+    """Inside one statement list: after `x = e;` (x a plain local whose address is not taken, e free of calls and of
+    variables assigned later in the list) later reads of x in the same list are replaced by e, up to the next assignment
+    of x.  Only for variables that the inliner introduced or that receive a value from inlined code."""
+    changed = False
+    addr = set()
+    for x in walk(f.body):
+        if x["kind"] == "UnaryOperator" and x.get("opcode") == "&":
+            t = strip(kids(x)[0], casts=True)
+            if t["kind"] == "DeclRefExpr":
+                addr.add(t["ref"]["id"])
+
+    def assigned_ids(n):
+        out = set()
+        for y in walk(n):
+            t = None
+            if y["kind"] in ("BinaryOperator", "CompoundAssignOperator") and (y.get("opcode") == "=" or y["kind"] == "CompoundAssignOperator"):
+                t = strip(kids(y)[0], casts=True)
+            elif y["kind"] == "UnaryOperator" and y.get("opcode") in ("++", "--"):
+                t = strip(kids(y)[0], casts=True)
+            if t is not None and t["kind"] == "DeclRefExpr":
+                out.add(t["ref"]["id"])
+        return out
+    for blk in walk(f.body):
+        if blk["kind"] != "CompoundStmt":
+            continue
+        st = kids(blk)
+        for i, s_ in enumerate(st):
+            if not (s_["kind"] == "BinaryOperator" and s_.get("opcode") == "="):
+                continue
+            l = strip(kids(s_)[0], casts=True)
+            if l["kind"] != "DeclRefExpr" or l["ref"].get("kind") not in ("VarDecl",) or l["ref"]["id"] in addr:
+                continue
+            rhs = kids(s_)[1]
+            r0 = strip(rhs, casts=True)
+            if r0["kind"] != "DeclRefExpr" or not str(r0["ref"].get("id", "")).startswith("inl"):
+                continue            # only copies out of inlined code
+            vid = l["ref"]["id"]
+            src_ids = {r0["ref"]["id"]}
+            for later in st[i + 1:]:
+                if vid in assigned_ids(later) or (src_ids & assigned_ids(later)):
+                    break
+                for y in walk(later):
+                    if y["kind"] == "DeclRefExpr" and y["ref"].get("id") == vid:
+                        y["ref"] = dict(r0["ref"])
+                        y["type"] = r0.get("type", y.get("type"))
+                        changed = True
+    return changed
